@@ -56,12 +56,9 @@ def main():
          'notes': 'All checks: python -m mc.run <ID> --tier quick|thorough [--replay file]. VERIF_SEED selects generic float values only; alphabets are seed-independent. Known findings: /verif/known_findings.json.'}
     with open(os.path.join(VERIF, 'MANIFEST.json'), 'w') as f:
         json.dump(m, f, indent=1)
-    try:
-        import jsonschema
-        jsonschema.validate(m, json.load(open('/root/.vp/MANIFEST.schema.json')))
-        print('MANIFEST.json valid: %d checks, %d not_applicable' % (len(checks), len(na)))
-    except ImportError:
-        print('written (jsonschema not importable here)')
+    from mc.run import validate_json
+    bad = validate_json('/root/.vp/MANIFEST.schema.json', os.path.join(VERIF, 'MANIFEST.json'))
+    print(('INVALID: ' + bad) if bad else 'MANIFEST.json valid: %d checks, %d not_applicable' % (len(checks), len(na)))
 
 
 if __name__ == '__main__':
